@@ -189,7 +189,7 @@ func H_C08_window() { sortHarness(4, ref.Opts{}, false, false, true) }
 //verif:harness props=C08,C09,C02 tier=thorough bounds="3 documents, sort key s absent/nil/string<=1/symbolic float64, two sort options, criteria, symbolic skip/limit/direction, index none / on s / on x, windows and derived operations"
 func H_C08_sort3_sym() { sortHarness(3, sortValSym, true, true, true) }
 
-//verif:harness props=C08 tier=quick bounds="Sort() without options orders by _id ascending: 3 documents inserted in any of 3 id orders"
+//verif:harness props=C08 tier=quick bounds="Sort() without options orders by _id ascending; explicit sort on _id with symbolic direction (any int), alone or as the leading key, with/without an index on _id, FindFirst and a window: 3 documents inserted in any of 3 id orders"
 func H_C08_default_sort() {
 	e := openEnv()
 	nd.Assert("setup.create", e.db.CreateCollection("c") == nil)
@@ -199,6 +199,28 @@ func H_C08_default_sort() {
 	}
 	docs, err := e.db.FindAll(query.NewQuery("c").Sort())
 	nd.Assert("C08.default-sort", err == nil && len(docs) == 3 && docs[0].ObjectId() == poolIds[0] && docs[1].ObjectId() == poolIds[1] && docs[2].ObjectId() == poolIds[2])
+	// an explicit sort on _id (the field a plain collection scan happens to be ordered by), any direction,
+	// with and without an index on _id, also as the leading key of two, with a window
+	if nd.Choice("index._id", 2) == 1 {
+		nd.Assert("setup.index", e.db.CreateIndex("c", "_id") == nil)
+	}
+	dir := nd.Int("dir")
+	keys := []sortKey{{"_id", dir < 0}}
+	opts := []query.SortOption{{Field: "_id", Direction: dir}}
+	if nd.Choice("second-key", 2) == 1 {
+		keys = append(keys, sortKey{"z", false})
+		opts = append(opts, query.SortOption{Field: "z", Direction: 1})
+	}
+	docs, err = e.db.FindAll(query.NewQuery("c").Sort(opts...))
+	nd.Assert("C08.id-sort.ordered", err == nil && len(docs) == 3 && isSorted(docs, keys, false))
+	first, err := e.db.FindFirst(query.NewQuery("c").Sort(opts...))
+	want := poolIds[0]
+	if dir < 0 {
+		want = poolIds[2]
+	}
+	nd.Assert("C08.id-sort.first", err == nil && first != nil && first.ObjectId() == want)
+	win, err := e.db.FindAll(query.NewQuery("c").Sort(opts...).Skip(1).Limit(1))
+	nd.Assert("C08.id-sort.window", err == nil && len(win) == 1 && win[0].ObjectId() == poolIds[1])
 	nd.Reach("end")
 }
 
